@@ -102,7 +102,7 @@ def U(n, **kw):
 U_TIMERS = [U(n) for n in ["u_poll_interrupt_timer", "u_poll_disconnect_timer", "u_poll_both_in_order",
             "u_poll_interrupt_payload_default", "u_poll_interrupt_payload_zero", "u_poll_interrupt_payload_saturating", "u_poll_interrupt_payload_one"]]
 U_LIVENESS = [U(n) for n in ["u_foreign_magic_ignored", "u_liveness_and_resume"]]
-U_MALFORMED = [U(n) for n in ["u_input_wrong_status_count_dropped", "u_input_negative_start_dropped"]] + [U(n, timeout=900, mem=14) for n in ["u_on_input_wrong_size_first_of_two", "u_on_input_wrong_size_second_of_two"]]
+U_MALFORMED = [U(n) for n in ["u_input_wrong_status_count_dropped", "u_input_negative_start_dropped"]] + [U("u_on_input_wrong_size_first_of_two", timeout=1800, mem=14), U("u_on_input_wrong_size_second_of_two", tier="thorough", timeout=3000, mem=30)]
 U_LOSTACK = [U(n) for n in names_in("network__protocol@b.rs", "u_lost_ack_reply_.*")]
 U_STREAM_Q = [U(n, timeout=600, mem=14) for n in names_in("network__protocol@b.rs", "u_on_input_stream_.*_k1")] + \
              [U("u_on_input_stream_l5_s7_k2"), U("u_input_ack_content", timeout=600, mem=10),
@@ -139,7 +139,7 @@ PC_EVENTS = [PC("pc_event_forwarding_and_cap"), PC("pc_wait_recommendation_respe
 PC_WAIT = [PC("pc_wait_recommendation_gate")]
 PC_CHECKSUM = [PC(n, mem=12) for n in names_in("sessions__p2p_session@calls.rs", "pc_checksum_send_gate_.*")] + [PC("pc_checksum_compare")]
 PC_MISUSE = [PC("pc_misuse_errors"), PC("pc_set_delay_wrong_handle"), PC("pc_advance_not_synchronized"), PC("pc_advance_input_missing")]
-V_ALL = [H(n, "spect", mem=8, timeout=900, unwindset={"SpectatorSession": 9, "drop_glue": 2})
+V_ALL = [H(n, "spect", mem=8, timeout=900, unwindset={"SpectatorSession": 9, "drop_glue": 7})
          for n in names_in("sessions__p2p_spectator_session.rs", "v_advance_.*") if n != "v_advance_r21_behind7_catchup9"] + \
         [H("v_input_event_step", "spect", mem=8, timeout=900),
          H("v_advance_r21_behind7_catchup9", "spect", tier="thorough", mem=24, timeout=2400, unwindset={"SpectatorSession": 9, "drop_glue": 2})]
@@ -180,8 +180,8 @@ P("C08", U_MALFORMED + U_LIVENESS + [h for h in K_QUICK if h["name"].startswith(
   "On the real handle_message/on_input/decode: an input packet with a wrong number of connection statuses or ANY negative start frame is dropped with no effect at all (no ack processed, no gossip merged, nothing delivered, no reply); a decoded frame whose size does not fit the player count drops itself and everything after it in the packet (frames before it are delivered, no gap, no ack); a packet with another session's magic has no effect and does not refresh the receive timer; every byte string (<= 3 bytes through the RLE stage, <= 5 and 8 and 12 through the guard (12 bytes: three maximal run tokens - the sum, not only each run, is bounded), every delta shape <= 5 bytes) is decoded or rejected without panic/overflow/OOB and without oversized allocation.",
   "Narrow reading of 'wrong size': payload not divisible by the player count or not deserialisable; a header-valid packet with garbage payload still has its ack/gossip processed (as the code documents).")
 P("C09", U_CHECKSUM + PC_CHECKSUM + PC_CONF[1:2],
-  "Checksum report store of an endpoint stays within its cap under in-order reports (cap regenerated to 4), oldest entry dropped first, newest stored; send gate and comparison kernels (pc_checksum_*); the confirmed frame they rely on is the min over connected players.",
-  "Only the buffer/ordering kernel; the no-false-alarm half needs multi-tick session runs (outside reach).")
+  "check_checksum_send_interval reports (and remembers) a checksum only for a frame at or below the LAST CONFIRMED frame - never on the strength of inputs not yet re-simulated - and labels it with the frame of the saved cell it was taken from, also when sparse saving makes a later saved frame stand in for the due one; compare_local_checksums_against_peers raises DesyncDetected iff both checksums of a frame below the confirmed frame exist and differ, carrying exactly the two values, and keeps reports it cannot compare yet; checksum report store of an endpoint stays within its cap under in-order reports (cap regenerated to 4), oldest entry dropped first, newest stored; send gate and comparison kernels (pc_checksum_*); the confirmed frame they rely on is the min over connected players.",
+  "Kernels only (one call each); that a deterministic game never produces differing checksums over whole sessions rests on C01/C02 and is not run end to end.")
 P("C10", PE_CUTOFF + S_MIN + PC_INPUT + PE_PERM + S_INPUTS,
   "Cut-off agreement kernel on the real update_player_disconnects with real endpoints: when a surviving peer gossips that a player is disconnected as of frame m and this peer holds its inputs up to L, this peer adopts min(L, m), schedules the resimulation from the next frame and does not re-arm it on the next tick.",
   "KNOWN FINDING F3: for m < L the unchanged tree keeps last_frame = L (witness pe_cutoff_agreement_gossip_earlier, see known_findings.json); the m >= L half, the late-input freeze and the order independence hold.")
@@ -190,7 +190,7 @@ P("C11", Q_DELAY + Q_DELAY2 + Q_ADD + PC_DELAY + PC_REGISTER + PC_OUTGOING,
   "KNOWN FINDING F4: two set_frame_delay calls before the next submission (witnesses q_delay_twice_1_2_3, _2_0_3, _1_3_1; controls with a repeated identical call pass). Session-level increase paths exceed the time cap (only the decrease instance pc_delay_1_to_0 is decided there).")
 P("C12", U_HANDSHAKE + U_LIVENESS + U_NORESUME + U_TIMERS + U_CAP + PC_EVENTS,
   "Lifecycle on the real endpoint: Synchronizing counts 1..4 then exactly one Synchronized after five distinct matched round trips (duplicates/stray/foreign replies do not count); NetworkResumed iff an interruption was announced; interruption/disconnect timers; a silent peer over the pending-output cap is asked to disconnect exactly once.",
-  "Session-level forwarding and the event-queue cap are not yet covered.")
+  "Session level: forwarding of endpoint events incl. the event-queue cap, Running iff every endpoint is synchronized, NotSynchronized before that (PC_EVENTS). Keep-alive cadence over time and 'two sessions that merely poll never see an interruption' are not run.")
 P("C14", K_QUICK + K_THOROUGH, PROPERTIES["C14"]["claim"], PROPERTIES["C14"]["note"],
   bounds=PROPERTIES["C14"]["bounds"], outside=PROPERTIES["C14"]["outside"], assumptions=PROPERTIES["C14"]["assumptions"])
 P("C15", M_ALL + U_QUALITY + PC_WAIT,
